@@ -18,6 +18,7 @@ type c16Cell struct {
 	Col, Span int
 	Pad       string // decoration after the unique token (may be multi-byte); "" with Empty => empty value
 	Empty     bool
+	Blank     int    // > 0: the value consists of that many blanks (an empty-looking cell)
 	Align     int    // 0 left, 1 center, 2 right
 	Margin    string // "-" = default margin
 }
@@ -39,7 +40,9 @@ func (c c16Case) build() (*Table, map[[2]int]string) {
 			}
 			t.Col(cell.Col)
 			val := ""
-			if !cell.Empty {
+			if cell.Blank > 0 {
+				val = strings.Repeat(" ", cell.Blank)
+			} else if !cell.Empty {
 				id++
 				val = fmt.Sprintf("v%d_%s", id, cell.Pad)
 			}
@@ -152,7 +155,7 @@ func c16Check(c c16Case) (v vcase.Verdict) {
 	byRow := map[int][]placed{}
 	spanWider, hasShrink := false, len(c.Shrink) > 0
 	for _, e := range cells {
-		if e.val == "" {
+		if strings.TrimSpace(e.val) == "" {
 			continue
 		}
 		tok := e.val[:strings.Index(e.val, "_")+1]
@@ -318,6 +321,10 @@ func c16Gen(t *rapid.T) c16Case {
 				if cell.Empty && strings.HasSuffix(cell.Margin, " ") {
 					cell.Margin = " │" // a margin-only cell must not end the line in a blank
 				}
+			}
+			if !cell.Empty && (cell.Margin == "-" || strings.TrimSpace(cell.Margin) == "") && vcase.OneIn(t, 10, "blank") {
+				// a value of blanks only looks like an empty cell and is laid out like one
+				cell.Blank = rapid.IntRange(1, 4).Draw(t, "nblank")
 			}
 			row = append(row, cell)
 			col += span
